@@ -215,6 +215,8 @@ def _sx_applicable(A):
     if A.get("angles_order") not in ("zxz", "zzx") or A.get("angles_numbering") not in (0, 1):
         return False
     dia = A.get("particle_diameter")
+    if isinstance(dia, np.ndarray) and dia.ndim == 0:
+        dia = dia[()]
     if not (isinstance(dia, (int, float, np.integer, np.floating)) and np.isfinite(dia) and dia > 0):
         return False
     if A.get("scores_threshold") is None and A.get("sigma_threshold") is None:
@@ -558,6 +560,8 @@ def _build_cbd(rng, cls, big):
             for k, ccol in enumerate(("x", "y", "z")):
                 df[ccol] = df[ccol].to_numpy(dtype=float) + off[k]
             info["coordinate_offset"] = off.tolist()
+    if len(np.unique(lab)) == 1 and rng.random() < 0.3:
+        lab = np.zeros(n)                       # a single group whose label is 0 (class 0 / tomo 0 everywhere)
     df[feature] = lab
     if cls == "cbd_representability" and np.all(np.abs(lab) < 2.0 ** 62) and rng.random() < 0.5:
         df[feature] = df[feature].astype(np.int64)
@@ -589,6 +593,38 @@ def _build_cbd(rng, cls, big):
             df["score"] = df["score"].astype(np.float32)
         df.index = rng.permutation(n) * 3 + 11
         info["index"] = "shuffled_odd"
+    # ---- presentation of the table (round 6): integer-typed columns, all-zero columns, row labels
+    if cls not in ("cbd_exact_duplicates", "cbd_near_tie", "cbd_representability") and rng.random() < 0.25:
+        Pc = gens.positions(df)
+        it = str(rng.choice(["int64", "int32"]))
+        for k, (cx, cs) in enumerate((("x", "shift_x"), ("y", "shift_y"), ("z", "shift_z"))):
+            xi = np.round(df[cx].to_numpy(dtype=float))
+            df[cs] = Pc[:, k] - xi
+            df[cx] = xi.astype(it)
+        info["xyz_dtype"] = it
+    if rng.random() < 0.2:
+        for ccol in ("phi", "theta", "psi"):
+            df[ccol] = np.round(df[ccol].to_numpy(dtype=float)).astype(np.int32)
+        info["euler_dtype"] = "int32"
+    if rng.random() < 0.15:
+        for ccol in ("class", "object_id", "tomo_id", "score", "geom1", "geom2"):
+            if ccol not in (feature, metric):
+                df[ccol] = 0.0
+        info["zero_columns"] = True
+    if cls != "cbd_odd_labels":
+        imode = str(rng.choice(["range", "range", "permuted", "gapped", "reversed", "repeated_labels", "repeated_labels", "all_equal_labels"]))
+        if imode == "permuted":
+            df.index = rng.permutation(n)
+        elif imode == "gapped":
+            df.index = np.sort(rng.choice(np.arange(5 * n + 5), n, replace=False))
+        elif imode == "reversed":
+            df.index = np.arange(n)[::-1]
+        elif imode == "repeated_labels":           # pd.concat of two lists without ignore_index
+            k1 = int(rng.integers(1, n + 1))
+            df.index = np.concatenate([np.arange(k1), np.arange(n - k1)])
+        elif imode == "all_equal_labels":
+            df.index = np.zeros(n, dtype=int)
+        info["index"] = imode
     # row identity for the driver: an own unique tag.  subtomo_id presentation: unique / restarting in every group / repeats
     df[TAG] = 1000.0 + np.arange(n)
     idmode = str(rng.choice(["unique", "restart_per_group", "restart_per_group", "repeats_within_group", "all_equal"],
@@ -980,7 +1016,7 @@ def _variant(rng, name, c, base_ids):
             mv[other] = (mv[own].max() + span * rng.uniform(1, 2, len(other))) if kg else (mv[own].min() - span * rng.uniform(1, 2, len(other)))
             df[metric] = mv
             drop = other[rng.random(len(other)) < 0.3]
-            df = df.drop(index=df.index[drop])
+            df = df.iloc[np.setdiff1d(np.arange(len(df)), drop)]          # positional: row labels may repeat
         else:
             # single group: add a foreign group on top of it
             extra = df.iloc[rng.integers(0, n, max(1, n // 2))].copy()
@@ -1021,19 +1057,33 @@ def _cbd_history(ctx, c, rng, base_ids):
         ctx.ood("cbd_metamorphic")
     # in place: half of the particles move away, one coordinate is mirrored
     far = rng.random(len(tab)) < 0.5
-    tab.loc[:, "x"] = tab["x"].to_numpy(dtype=float) + np.where(far, 512.0, 0.0)
-    tab.loc[:, "shift_y"] = -tab["shift_y"].to_numpy(dtype=float)
+    tab["x"] = tab["x"].to_numpy(dtype=float) + np.where(far, 512.0, 0.0)
+    tab["shift_y"] = -tab["shift_y"].to_numpy(dtype=float)
     if _in_domain(tab, c):
         ctx.call("clean_by_distance[history-3]", cm.Motl(tab).clean_by_distance, c["d"], c["feature"], **kw)
     else:
         ctx.ood("cbd_metamorphic")
 
 
+def _scalar_kind(rng, v):
+    """the same number as another scalar kind (python / numpy scalar / 0-d array / narrower float when exact)"""
+    kinds = ["python", "python", "float64", "zero_d"]
+    if float(v).is_integer():
+        kinds += ["int", "int64"]
+    if float(np.float32(v)) == float(v):
+        kinds += ["float32"]
+    k = str(rng.choice(kinds))
+    return {"python": v, "float64": np.float64(v), "zero_d": np.array(float(v)), "int": int(v) if k == "int" else v,
+            "int64": np.int64(v) if k == "int64" else v, "float32": np.float32(v)}[k]
+
+
 def _run_cbd(ctx, c):
     cm = ctx.cm
     rng = ctx.rng(c["i"], 1)
+    sk = ctx.rng(c["i"], 3)
     m = cm.Motl(c["df"].copy(deep=True))
-    ok, _ = ctx.call("clean_by_distance", m.clean_by_distance, c["d"], c["feature"], metric_id=c["metric"], keep_greater=c["kg"])
+    ok, _ = ctx.call("clean_by_distance", m.clean_by_distance, _scalar_kind(sk, c["d"]), c["feature"], metric_id=c["metric"],
+                     keep_greater=(np.bool_(c["kg"]) if sk.random() < 0.5 else c["kg"]))
     if not ok:
         return
     base_ids = _survivor_ids(m)
@@ -1063,25 +1113,83 @@ def _run_cbd(ctx, c):
             "ids_missing": sorted(set(exp) - set(got))[:6], "ids_unexpected": sorted(set(got) - set(exp))[:6]})
 
 
+MAP_LAYOUTS = ["C", "C", "F", "swap12", "swap12", "swap01", "roll_axes", "negative_strides", "sliced", "readonly_F"]
+LIST_LAYOUTS = ["C", "C", "F", "sliced", "readonly", "transposed_view"]
+# file names: stems ending in the letters of the extension, glob / bracket characters, spaces, non-ASCII, sub-directory
+# (relative to the cwd, which is the shard's scratch directory)
+PATH_PATTERNS = ["c07_%s_%d_%s", "c07_%s_%d_%s_ribosome", "c07_%s_%d_%s_frame", "c07 sub [d1]/c07_%s_%d_%s map*?", "c07_%s_%d_%s_\u043a\u0430\u0440\u0442\u0430_\u00e9",
+                 "c07_sub/deeper/c07_%s_%d_%s.em.mrc.copy"]
+
+
+def _layout(arr, kind):
+    """the same values in another memory layout (value-preserving; the oracle reads the values the array holds)"""
+    a = np.asarray(arr)
+    if a.ndim == 2:
+        if kind == "F":
+            return np.asfortranarray(a)
+        if kind == "sliced":
+            big = np.zeros((a.shape[0], a.shape[1] * 2), dtype=a.dtype)
+            v = big[:, ::2]
+            v[...] = a
+            return v
+        if kind == "readonly":
+            r = np.array(a)
+            r.setflags(write=False)
+            return r
+        if kind == "transposed_view":
+            return np.ascontiguousarray(a.T).T
+        return np.ascontiguousarray(a)
+    if kind == "F":
+        return np.asfortranarray(a)
+    if kind == "swap12":
+        return np.swapaxes(np.ascontiguousarray(np.swapaxes(a, 1, 2)), 1, 2)
+    if kind == "swap01":
+        return np.swapaxes(np.ascontiguousarray(np.swapaxes(a, 0, 1)), 0, 1)
+    if kind == "roll_axes":
+        return np.moveaxis(np.ascontiguousarray(np.moveaxis(a, 0, 2)), 2, 0)
+    if kind == "negative_strides":
+        return np.ascontiguousarray(a[::-1, :, ::-1])[::-1, :, ::-1]
+    if kind == "sliced":
+        big = np.zeros((a.shape[0] * 2, a.shape[1] + 3, a.shape[2]), dtype=a.dtype)
+        v = big[::2, 1:1 + a.shape[1], :]
+        v[...] = a
+        return v
+    if kind == "readonly_F":
+        r = np.array(a, order="F")
+        r.setflags(write=False)
+        return r
+    return np.ascontiguousarray(a)
+
+
 def _write_inputs(ctx, c, tag, S, A, L, io, order):
     """materialise the inputs as the requested kinds -> (scores_arg, angles_arg, list_arg)"""
     out = []
+    lr = ctx.rng(c["i"], 7 + sum(map(ord, tag)))
     for name, arr, kind in (("s", S, io["scores"]), ("a", A, io["angles"])):
         if kind == "array":
-            out.append(arr)
+            out.append(_layout(arr, str(lr.choice(MAP_LAYOUTS))))
             continue
-        p = os.path.join(ctx.scratch, "c07_%s_%d_%s.%s" % (name, c["i"], tag, kind))
+        stem = str(lr.choice(PATH_PATTERNS)) % (name, c["i"], tag)
+        p = stem + "." + kind                      # relative path: the cwd is the scratch directory
+        if lr.random() < 0.5:
+            p = os.path.join(ctx.scratch, p)
+        if os.path.dirname(p):
+            os.makedirs(os.path.dirname(p), exist_ok=True)
+        ctx._c07_tmp = getattr(ctx, "_c07_tmp", []) + [p]
         if kind == "em":
             files.write_em_raw(p, np.asarray(arr, dtype=np.float32), code=5)
         else:
             files.write_mrc_raw(p, np.asarray(arr, dtype=np.float32), mode=2)
         out.append(p)
     if io["list"] == "array":
-        out.append(np.array(L))
+        La = np.array(L)
+        if np.all(La == np.round(La)) and np.abs(La).max(initial=0) < 30000 and lr.random() < 0.5:
+            La = La.astype(str(lr.choice(["int64", "int32", "int16"])))          # integer Euler angles
+        out.append(_layout(La, str(lr.choice(LIST_LAYOUTS))))
     else:
         # a pool of two REUSED paths: consecutive cases of a shard, and the calls within one case, read different lists
         # (and different column orders) from the same file name
-        p = os.path.join(ctx.scratch, "c07_anglist_p%d.csv" % ((c["i"] // 2) % 2))
+        p = os.path.join(ctx.scratch, ["c07_anglist_p0.csv", "c07 angles [p1] \u00e9*.csv"][(c["i"] // 2) % 2])
         _write_list_csv(p, L, order, c["i"] % 2 == 0, c.get("L_tokens") if L is c["L"] else None)
         out.append(p)
     return out
@@ -1111,14 +1219,18 @@ def _run_sx(ctx, c):
     tm = ctx.tm
     rng = ctx.rng(c["i"], 1)
     S, A, L = c["S"], c["A"], c["L"]
-    kw = dict(object_id=c["object_id"], angles_order=c["order"], angles_numbering=c["numbering"])
+    sk = ctx.rng(c["i"], 3)
+    kw = dict(object_id=c["object_id"], angles_order=c["order"],
+              angles_numbering=(np.int64(c["numbering"]) if sk.random() < 0.4 else c["numbering"]))
     if c["thr_kind"].startswith("sigma"):
-        kw["sigma_threshold"] = c["sigma"]
+        kw["sigma_threshold"] = _scalar_kind(sk, c["sigma"])
     else:
-        kw["scores_threshold"] = c["thr"]
+        kw["scores_threshold"] = c["thr"] if c["cls"] == "sx_zero_threshold" else _scalar_kind(sk, c["thr"])
     # list semantics: L holds phi,theta,psi.  An ARRAY is taken as phi,theta,psi whatever the order option says.
     args = _write_inputs(ctx, c, "m", S, A, L, c["io"], c["order"])
-    ok, motl = ctx.call("scores_extract_particles", tm.scores_extract_particles, args[0], args[1], args[2], c["tomo_id"], c["dia"], **kw)
+    dia_arg = _scalar_kind(sk, c["dia"])
+    ok, motl = ctx.call("scores_extract_particles", tm.scores_extract_particles, args[0], args[1], args[2], np.int64(c["tomo_id"]) if c["i"] % 3 == 0 else c["tomo_id"],
+                        dia_arg, **kw)
     if not ok:
         return
     T0 = _peak_table(motl)
@@ -1245,12 +1357,54 @@ def _run_sx(ctx, c):
                 w.update(first_diff_row=int(r), field=SX_COLS[int(cc)], expected=expect[r].tolist(), got=Tv[r].tolist())
         ctx.check("sx_relational", good, None if good else dict(w, shape=list(S.shape), diameter=c["dia"], order=kw2["angles_order"],
                                                                 numbering=c["numbering"]))
-    for p in os.listdir(ctx.scratch):
-        if p.startswith("c07_") and ("_%d_" % c["i"]) in p:
-            try:
-                os.remove(os.path.join(ctx.scratch, p))
-            except OSError:
-                pass
+    _sx_to_cbd_flow(ctx, c, rng, motl, args, kw)
+    for p in getattr(ctx, "_c07_tmp", []):
+        try:
+            os.remove(p)
+        except OSError:
+            pass
+    ctx._c07_tmp = []
+
+
+def _sx_to_cbd_flow(ctx, c, rng, motl, args, kw):
+    """FLOW between the two anchors: the very object returned by scores_extract_particles is cleaned by distance (both score
+    directions), and another returned object is re-scored / re-ordered in place and cleaned twice.  Every clean is judged by
+    the clean_by_distance call monitors against the table the object holds at that moment; the first one additionally
+    against a fresh Motl built from a copy of the same values."""
+    cm, tm = ctx.cm, ctx.tm
+    if motl is None or not (2 <= len(motl.df) <= 1500):
+        return
+    d = _generic_diameter(rng, float(c["dia"]) * 1.2 + 0.3, float(c["dia"]) * 3.0 + 1.0)
+    kg = bool(c["i"] // len(CLASSES) % 2)                       # alternate; the other direction is used on the second object
+    fresh = cm.Motl(motl.df.copy(deep=True))
+    motl.df.attrs["source"] = "template matching"
+    ok, _ = ctx.call("clean_by_distance[on extraction result]", motl.clean_by_distance, d, "tomo_id", metric_id="score", keep_greater=kg)
+    ok2, _ = ctx.call("clean_by_distance[fresh copy of extraction result]", fresh.clean_by_distance, d, "tomo_id", metric_id="score", keep_greater=kg)
+    if ok and ok2:
+        a = motl.df[SX_COLS].to_numpy(dtype=np.float64)
+        b = fresh.df[SX_COLS].to_numpy(dtype=np.float64)
+        a, b = a[np.lexsort(a[:, :3].T[::-1])], b[np.lexsort(b[:, :3].T[::-1])]
+        good = a.shape == b.shape and bool(np.array_equal(a, b))
+        ctx.check("cbd_metamorphic", good, None if good else {"variant": "extraction result vs fresh Motl of the same values", "d": d,
+                                                              "keep_greater": kg, "n_object": int(len(a)), "n_fresh": int(len(b))})
+    # second object: a new extraction, then edited in place, then cleaned twice (the second clean sees the first one's result)
+    ok, m2 = ctx.call("scores_extract_particles[for flow]", tm.scores_extract_particles, args[0], args[1], args[2], c["tomo_id"], c["dia"], **kw)
+    if not ok or m2 is None or len(m2.df) < 2:
+        return
+    n = len(m2.df)
+    sc = m2.df["score"].to_numpy().copy()
+    mode = ["rescore", "reorder", "negate"][c["i"] // len(CLASSES) % 3]
+    if mode == "rescore":
+        m2.df["score"] = sc[rng.permutation(n)]
+    elif mode == "reorder":
+        m2.df = m2.df.iloc[rng.permutation(n)]                 # keeps the (now permuted) row labels
+    else:
+        m2.df["score"] = -sc
+    m2.note = "edited after extraction"
+    ctx.call("clean_by_distance[edited extraction result]", m2.clean_by_distance, d, "tomo_id", metric_id="score", keep_greater=not kg)
+    if len(m2.df) >= 2:
+        d2 = _generic_diameter(rng, d * 1.3, d * 2.2)
+        ctx.call("clean_by_distance[edited extraction result, again]", m2.clean_by_distance, d2, "object_id", metric_id="score", keep_greater=kg)
 
 
 def run_case(ctx, case):
